@@ -1,37 +1,13 @@
 (* C16, part 1: the backing device under a fault script -- what write_at / write_chunks /
    truncate_to do to a file when the writes land at or beyond its end, and fault accounting. *)
 From GoCar Require Import Bytes Varint Cid Header Frame V2Header Index Store Fault.
-From GoCarProofs Require Import BytesFacts VarintFacts.
+From GoCarProofs Require Import BytesFacts VarintFacts StoreInv.
 
-(* ---- write_at ------------------------------------------------------------------------------ *)
-Lemma write_at_end f d : write_at f (blen f) d = f ++ d.
-Proof.
-  unfold write_at. destruct d as [|x d']; [rewrite app_nil_r; reflexivity|].
-  rewrite N.leb_refl. rewrite take_all.
-  rewrite drop_ge by (rewrite blen_cons; lia). rewrite app_nil_r. reflexivity.
-Qed.
-
-Lemma write_at_beyond f off d : d <> [] -> blen f <= off ->
-  write_at f off d = f ++ zerosN (off - blen f) ++ d.
-Proof.
-  intros Hd Hoff. unfold write_at. destruct d as [|x d']; [congruence|].
-  destruct (off <=? blen f) eqn:E; [|reflexivity].
-  assert (off = blen f) by lia. subst off.
-  rewrite N.sub_diag. change (zerosN 0) with (@nil byte). cbn [app].
-  rewrite take_all, drop_ge by (rewrite blen_cons; lia). rewrite app_nil_r. reflexivity.
-Qed.
-
+(* ---- write_at (basic facts are in StoreInv.v) ------------------------------------------------- *)
 (* overwrite a middle part of equal length *)
-Lemma write_at_mid a b c d : d <> [] -> blen d = blen b ->
+Lemma write_at_mid_eq a b c d : blen d = blen b ->
   write_at (a ++ b ++ c) (blen a) d = a ++ d ++ c.
-Proof.
-  intros Hd Hl. unfold write_at. destruct d as [|x d']; [congruence|].
-  replace (blen a <=? blen (a ++ b ++ c)) with true by (rewrite !blen_app; lia).
-  rewrite take_app. f_equal. f_equal.
-  rewrite drop_app_ge by lia.
-  replace (blen a + blen (x :: d') - blen a) with (blen b) by lia.
-  apply drop_app.
-Qed.
+Proof. intros Hl. rewrite write_at_mid, Hl, drop_app. reflexivity. Qed.
 
 Lemma truncate_to_app f w : truncate_to (f ++ w) (blen f) = f.
 Proof.
@@ -75,18 +51,19 @@ Lemma write_chunks_end : forall chunks dv abs dv' abs' ok,
             (ok = false -> (nfaults (d_faults dv') < nfaults (d_faults dv))%nat).
 Proof.
   induction chunks as [|c t IH]; intros dv abs dv' abs' ok Habs H; cbn [write_chunks] in H.
-  - inversion H; subst. exists []. rewrite app_nil_r. repeat split; try reflexivity; try lia. discriminate.
+  - inversion H; subst. exists []. rewrite app_nil_r. split; [reflexivity|]. split; [rewrite blen_nil; lia|].
+    split; [intros _; split; reflexivity|discriminate].
   - destruct (dev_write dv abs c) as [[dv1 n] [|]] eqn:E.
     + apply dev_write_ok in E. destruct E as (Hf & Hn & Hnf). subst n abs.
       rewrite write_at_end in Hf.
-      destruct (IH dv1 _ dv' abs' ok) as (w & Hw & Ha & Hok & Hbad); [rewrite Hf, blen_app; reflexivity|exact H|].
+      destruct (IH dv1 (blen (d_file dv) + blen c) dv' abs' ok) as (w & Hw & Ha & Hok & Hbad); [rewrite Hf, blen_app; reflexivity|exact H|].
       exists (c ++ w). rewrite Hw, Hf, <- app_assoc. split; [reflexivity|]. split; [rewrite blen_app; lia|].
       split.
       * intros Ht. destruct (Hok Ht) as [-> Hn2]. split; [reflexivity|]. rewrite Hn2. exact Hnf.
       * intros Hfalse. specialize (Hbad Hfalse). lia.
     + inversion H; subst. apply dev_write_fail in E. destruct E as (part & Hf & Hn & Hnf). subst n.
       rewrite write_at_end in Hf.
-      exists part. repeat split; try assumption; try discriminate. intros _. lia.
+      exists part. split; [exact Hf|]. split; [reflexivity|]. split; [discriminate|intros _; lia].
 Qed.
 
 (* fault accounting for any start offset *)
@@ -133,11 +110,11 @@ Proof.
   apply dev_write_ok in E1. destruct E1 as (Hf1 & Hn & _). subst n.
   destruct (dev_write dv1 (blen a + blen x) y) as [[dv2 n2] [|]] eqn:E2; [|inversion H].
   apply dev_write_ok in E2. destruct E2 as (Hf2 & _ & _). inversion H; subst.
-  rewrite Hf, <- app_assoc, write_at_mid in Hf1 by assumption.
+  rewrite Hf, <- app_assoc, write_at_mid_eq in Hf1 by assumption.
   rewrite Hf2, Hf1.
   replace (a ++ x ++ b2 ++ c) with ((a ++ x) ++ b2 ++ c) by (rewrite <- app_assoc; reflexivity).
   replace (blen a + blen x) with (blen (a ++ x)) by (rewrite blen_app; reflexivity).
-  rewrite write_at_mid by assumption. rewrite <- !app_assoc. reflexivity.
+  rewrite write_at_mid_eq by assumption. rewrite <- !app_assoc. reflexivity.
 Qed.
 
 (* ---- what the chunk lists add up to ----------------------------------------------------------- *)
